@@ -62,7 +62,8 @@ type Lemma struct {
 }
 
 // ClosureDecl binds a name to a closure of the package with symbolic captured variables:
-//   closure less = SortVersions$1(vs []Version, vers map[VersionKey]*semver.Version)
+//
+//	closure less = SortVersions$1(vs []Version, vers map[VersionKey]*semver.Version)
 type ClosureDecl struct {
 	Name string
 	Fn   string
